@@ -332,6 +332,43 @@ CLAIMED = {
              "belong to C07.",
         technique="TLA+ spec ProcVar over the eBPF machine; real slow path and real emitted fast path compared by TLC",
         design_ref="5/C19"),
+
+    "C21": dict(
+        category="model_checking",
+        text="FastGroupFrame.tla / FastGroup.tla state the per-pass requirement on a fast group's frame: user "
+             "space emits only sterile frames (write datagrams NOP); if the group's program processes the frame "
+             "with output enabled, exactly the write datagrams are re-enabled, their working counters cleared and "
+             "wkc_errors grows by the number of write datagrams whose returned counter differed from the expected "
+             "value; otherwise the frame is unchanged. TLC executes the real FastSyncGroup bytecode per frame for "
+             "16 (thorough 56) layouts (FMMU and direct, 1-4 write datagrams) x all subsets of right / wrong "
+             "returned counters x output enabled / disabled; the real FastSyncGroup.run / update_devices are "
+             "driven under virtual time for the frames user space emits; and over the dispatcher histories of "
+             "C22 no frame returns to the bus with enabled write datagrams unless the group's program processed "
+             "it in that pass. Every pass is re-run on the real kernel (machine = kernel).",
+        note="Expected counters and the set of write datagrams are computed in the spec from the reference frame "
+             "and the configuration. A wrap of wkc_errors at 2^32 is modular.",
+        technique="TLA+ specs FastGroupFrame / FastGroup over the eBPF machine; TLC executes the real emitted "
+                  "bytecode; kernel cross-check per pass",
+        design_ref="5/C21"),
+    "C22": dict(
+        category="model_checking",
+        text="The real emitted bytecode is the step function of the model: TLC computes a transition table by "
+             "running the real EtherXDP dispatcher (86 instructions) with a real tail call into a real "
+             "FastSyncGroup program on the eBPF machine for every (counter byte, index byte within the age "
+             "bound or 0, registered x output x writers enabled) and judges foreign frames; every table entry is "
+             "re-run through a real kernel program array (1 221 quick / 27 658 thorough entries, 0 "
+             "mismatches). Dispatcher.tla then explores exhaustively, breadth first, all histories of "
+             "deliveries in any order, losses, injections, enabling and unregistering with at most three frames "
+             "in flight: never dropped; foreign frames pass unchanged; frames of an unregistered group reach "
+             "user space with the ethertype of the identification datagram; at most two consecutive deliveries "
+             "without the group's program.",
+        note="Age bound K = 4 (quick, 20 counter values across the 255->0 wrap) / 8 (thorough, all 256). User "
+             "space injects only while the group is registered (as FastSyncGroup.run does). One recorded known "
+             "finding: with out-of-order returns three consecutive deliveries go by without the group's program "
+             "(reproduced on the real kernel); under FIFO delivery the clause holds and is checked as gating.",
+        technique="TLC computes the transition table from the real dispatcher + group bytecode (kernel cross-checked); "
+                  "exhaustive BFS over frame histories on that table",
+        design_ref="5/C22"),
 }
 NOT_YET = "not yet built in this round (planned in DESIGN.md section 5)"
 NOT_APPLICABLE = {}
